@@ -441,8 +441,13 @@ func checkLoadNormalisation(w *World, r *Report) {
 		J + ".Start": "startptr", J + ".Completed": "completed", J + ".Canceled": "canceled",
 		FuncName(isRunning) + "(" + J + ")": "isrunning",
 	}
-	res := w.EnumPaths(loadFn, EnumOpts{Start: mapCall.Block()})
+	// job predicates other than the running predicate (e.g. a named "is waiting") are spliced in
+	res := w.EnumPaths(loadFn, EnumOpts{Start: mapCall.Block(), Inline: true, Opaque: func(f *ssa.Function) bool {
+		return f == mapper || f == isRunning || w.statelessCallee(f)
+	}})
 	r.Count("paths", len(res.Paths))
+	// the loop over the stored jobs lies in the load function itself, or in its only caller
+	loopInLoadFn := loopHeaderOf(mapCall.Block()) != nil
 	if res.Truncated || len(res.Paths) == 0 {
 		r.Undecided("normalise.table", FuncName(loadFn), w.InstrPos(mapCall), "cannot enumerate the load loop body")
 		return
@@ -498,7 +503,7 @@ func checkLoadNormalisation(w *World, r *Report) {
 	okIdx := true
 	detail := ""
 	for _, p := range res.Paths {
-		if !strings.HasPrefix(p.End, "backedge") {
+		if loopInLoadFn && !strings.HasPrefix(p.End, "backedge") || !loopInLoadFn && p.End != "return" {
 			continue
 		}
 		nID, nPipe := 0, 0
@@ -653,19 +658,26 @@ func loadEveryJob(w *World, r *Report, rule string, loadFn *ssa.Function, mapCal
 		return
 	}
 	// the innermost loop header that dominates the mapper call
-	var header *ssa.BasicBlock
-	for _, b := range loadFn.Blocks {
-		if !b.Dominates(mapCall.Block()) || b == mapCall.Block() && false {
-			continue
-		}
-		isHeader := false
-		for _, p := range b.Preds {
-			if b.Dominates(p) {
-				isHeader = true
+	header := loopHeaderOf(mapCall.Block())
+	var passInFn ssa.Instruction = mapCall
+	loopFn := loadFn
+	if header == nil {
+		// the per-job part is a function of its own: every path through it builds the job, and
+		// its only call site lies in the loop over the stored jobs
+		skip := PathQuery{Fn: loadFn, Target: isReturn, BlockInstr: func(in ssa.Instruction) bool { return in == ssa.Instruction(mapCall) }}.Find()
+		var sites []ssa.CallInstruction
+		var host *ssa.Function
+		for _, g := range w.ModFuncs {
+			for _, ci := range findCalls(g, func(_ string, c *ssa.CallCommon) bool { return c.StaticCallee() == loadFn }) {
+				sites = append(sites, ci)
+				host = g
 			}
 		}
-		if isHeader && (header == nil || header.Dominates(b)) {
-			header = b
+		if len(sites) == 1 && loopHeaderOf(sites[0].Block()) != nil {
+			if !r.Check(!skip.Found, rule, FuncName(loadFn)+": every call builds the job", w.InstrPos(mapCall), "every path through the per-job function passes the mapper call", "the per-job load function can return without building the job ("+skip.String()+"): a stored job is silently dropped at start-up") {
+				return
+			}
+			header, passInFn, loopFn = loopHeaderOf(sites[0].Block()), sites[0], host
 		}
 	}
 	if header == nil {
@@ -684,8 +696,29 @@ func loadEveryJob(w *World, r *Report, rule string, loadFn *ssa.Function, mapCal
 		}
 		return false
 	}
-	res := PathQuery{Fn: loadFn, Start: []ssa.Instruction{header.Instrs[0]}, Target: isBack, BlockInstr: func(in ssa.Instruction) bool { return in == ssa.Instruction(mapCall) }}.Find()
+	res := PathQuery{Fn: loopFn, Start: []ssa.Instruction{header.Instrs[0]}, Target: isBack, BlockInstr: func(in ssa.Instruction) bool { return in == passInFn }}.Find()
 	r.Check(!res.Found, rule, FuncName(loadFn)+": every stored job is built", w.InstrPos(mapCall), "every iteration of the load loop passes the mapper call (no stored job is skipped)", "an iteration of the load loop can reach the next one without building the job ("+res.String()+"): a stored job is silently dropped at start-up — it vanishes from the API and the next save, and its logs are never removed")
+}
+
+// loopHeaderOf: the innermost loop header that dominates b (nil if b is not in a loop).
+func loopHeaderOf(b *ssa.BasicBlock) *ssa.BasicBlock {
+	var header *ssa.BasicBlock
+	for _, h := range b.Parent().Blocks {
+		if !h.Dominates(b) {
+			continue
+		}
+		isHeader := false
+		for _, p := range h.Preds {
+			if h.Dominates(p) {
+				isHeader = true
+			}
+		}
+		// b must be inside the loop: some back-edge source is reachable from b
+		if isHeader && (header == nil || header.Dominates(h)) {
+			header = h
+		}
+	}
+	return header
 }
 
 func evalBoolTerm(t string, vars map[string]string, env map[string]int64) (int64, string) {
